@@ -134,4 +134,135 @@ OK("c02-benign-log-change", "C02", "entity.py",
    'logger.error("Signature Error: %s", err)', 'logger.warning("Signature error %s", err)',
    count=2)
 
+# ------------------------------------------------------------------ C03
+V("c03-use-any", "C03", "sigver.py",
+  "self.metadata.certs(_issuer, 'any', 'signing')",
+  "self.metadata.certs(_issuer, 'any', 'any')", rule="R1")
+V("c03-use-default-removed", "C03", "sigver.py",
+  "self.metadata.certs(_issuer, 'any', 'signing')",
+  "self.metadata.certs(_issuer, 'any', use='encryption')", rule="R1")
+V("c03-fallback-ignores-setting", "C03", "sigver.py",
+  "if not certs and not self.only_use_keys_in_metadata:", "if not certs:",
+  rule="R2")
+V("c03-fallback-always", "C03", "sigver.py",
+  "if not certs and not self.only_use_keys_in_metadata:",
+  "if not self.only_use_keys_in_metadata:", rule="R2")
+V("c03-missingkey-removed", "C03", "sigver.py",
+  "        if not certs:\n            raise MissingKey(_issuer)\n",
+  "        if not certs:\n            logger.error('no key for %s', _issuer)\n",
+  rule="R3")
+V("c03-filter-neq", "C03", "mdstore.py",
+  'if "use" in key and key["use"] == use:', 'if "use" in key and key["use"] != use:',
+  rule="R6")
+V("c03-filter-dropped", "C03", "mdstore.py",
+  'if "use" in key and key["use"] == use:', 'if "use" in key:', rule="R6")
+V("c03-issuer-from-param-first", "C03", "sigver.py",
+  "        try:\n            _issuer = item.issuer.text.strip()\n        except AttributeError:\n            _issuer = None\n\n        if _issuer is None:",
+  "        try:\n            _issuer = item.issuer.text.strip()\n        except AttributeError:\n            _issuer = None\n\n        if issuer is not None:",
+  rule="R4")
+V("c03-default-flipped", "C03", "config.py",
+  "self.only_use_keys_in_metadata = True", "self.only_use_keys_in_metadata = False",
+  rule="R5")
+V("c03-ctx-ignores-setting", "C03", "sigver.py",
+  "        self.only_use_keys_in_metadata = only_use_keys_in_metadata",
+  "        self.only_use_keys_in_metadata = False", rule="R5")
+V("c03-extra-cert-source", "C03", "sigver.py",
+  "        if not certs:\n            raise MissingKey(_issuer)\n",
+  "        if not certs:\n            certs = [(None, self.cert_file)]\n        if not certs:\n            raise MissingKey(_issuer)\n",
+  rule="R1")
+V("c03-other-entity", "C03", "mdstore.py",
+  "        ent = self[entity_id]\n\n        def extract_certs",
+  "        ent = self[entity_id] if entity_id in self else list(self.entity.values())[0]\n\n        def extract_certs",
+  rule="R6")
+OK("c03-benign-filter-get", "C03", "mdstore.py",
+   'if "use" in key and key["use"] == use:', 'if "use" in key and use == key["use"]:')
+
+# ------------------------------------------------------------------ C04
+V("c04-nooa-flipped", "C04", "validate.py",
+  "if now > nooa + slack:", "if now < nooa + slack:", rule="R1")
+V("c04-nooa-slack-sign", "C04", "validate.py",
+  "if now > nooa + slack:", "if now > nooa - slack:", rule="R1")
+V("c04-nooa-slack-dropped", "C04", "validate.py",
+  "if now > nooa + slack:", "if now > nooa:", rule="R1")
+V("c04-before-flipped", "C04", "validate.py",
+  "if nbefore > now + slack:", "if nbefore < now + slack:", rule="R1")
+V("c04-before-slack-wrong-side", "C04", "validate.py",
+  "if nbefore > now + slack:", "if nbefore + slack > now:", rule="R1")
+V("c04-window-two-days", "C04", "response.py",
+  "        upper = time_util.shift_time(time_util.time_in_a_while(days=1),\n                                     self.timeslack).timetuple()\n        lower = time_util.shift_time(time_util.time_a_while_ago(days=1),\n                                     -self.timeslack).timetuple()",
+  "        upper = time_util.shift_time(time_util.time_in_a_while(days=2),\n                                     self.timeslack).timetuple()\n        lower = time_util.shift_time(time_util.time_a_while_ago(days=1),\n                                     -self.timeslack).timetuple()",
+  rule="R1")
+V("c04-window-lower-slack-sign", "C04", "response.py",
+  "                                     -self.timeslack).timetuple()",
+  "                                     self.timeslack).timetuple()", rule="R1")
+V("c04-window-one-sided", "C04", "response.py",
+  "        return lower < issued_at < upper", "        return issued_at < upper",
+  rule="R1")
+V("c04-request-window-or", "C04", "request.py",
+  "return issued_at > lower and issued_at < upper",
+  "return issued_at > lower or issued_at < upper", rule="R1")
+V("c04-later-than-flipped", "C04", "time_util.py",
+  "    return after >= before", "    return after <= before", rule="R1")
+V("c04-before-flipped-timeutil", "C04", "time_util.py",
+  "    return time.gmtime() <= point", "    return time.gmtime() >= point", rule="R1")
+V("c04-helper-summary-broken", "C04", "time_util.py",
+  "    return dtime + timedelta(seconds=shift)", "    return dtime - timedelta(seconds=shift)",
+  rule="R1")
+V("c04-drop-validate-before", "C04", "response.py",
+  "            if conditions.not_before:\n                validate_before(conditions.not_before, self.timeslack)\n",
+  "", rule="R2")
+V("c04-cond-nooa-only-if-required", "C04", "response.py",
+  "            if conditions.not_on_or_after:\n                self.not_on_or_after",
+  "            if conditions.not_on_or_after and self.require_signature:\n                self.not_on_or_after",
+  rule="R2")
+V("c04-slack-constant", "C04", "response.py",
+  "validate_before(data.not_before, self.timeslack)",
+  "validate_before(data.not_before, 3600)", rule="R2")
+V("c04-bearer-skip-nooa", "C04", "response.py",
+  "        validate_on_or_after(data.not_on_or_after, self.timeslack)\n", "", rule="R2")
+V("c04-condition-result-ignored", "C04", "response.py",
+  "        if not self.condition_ok():\n            raise VerificationError(\"Condition not OK\")",
+  "        self.condition_ok()", rule="R2")
+V("c04-later-than-ignored", "C04", "response.py",
+  "            if not later_than(conditions.not_on_or_after,\n                              conditions.not_before):\n                return False",
+  "            if not later_than(conditions.not_on_or_after,\n                              conditions.not_before):\n                logger.warning('inverted window')",
+  rule="R2")
+V("c04-session-unchecked", "C04", "response.py",
+  "            if validate_on_or_after(authn_statement.session_not_on_or_after,\n                                    self.timeslack):",
+  "            if authn_statement.session_not_on_or_after:", rule="R2")
+V("c04-issue-instant-not-asserted", "C04", "response.py",
+  "        assert self.issue_instant_ok()\n        assert self.status_ok()",
+  "        self.issue_instant_ok()\n        assert self.status_ok()", rule="R2")
+V("c04-lax-default-true", "C04", "response.py",
+  "    def condition_ok(self, lax=False):\n        if not self.assertion.conditions:",
+  "    def condition_ok(self, lax=True):\n        if not self.assertion.conditions:", rule="R4")
+V("c04-test-true-in-client", "C04", "client_base.py",
+  '"valid_destination_regex": self.valid_destination_regex,\n        }',
+  '"valid_destination_regex": self.valid_destination_regex,\n            "test": True,\n        }',
+  rule="R4") if False else None
+V("c04-handler-swallows", "C04", "response.py",
+  "            if not lax:\n                raise\n            else:\n                self.not_on_or_after = 0",
+  "            self.not_on_or_after = 0", rule="R4")
+V("c04-timeslack-ignored", "C04", "entity.py",
+  'kwargs["timeslack"] = self.config.accepted_time_diff',
+  'kwargs["timeslack"] = 3600 * 24', rule="R3")
+V("c04-session-info-swapped", "C04", "response.py",
+  "        if self.session_not_on_or_after > 0:\n            nooa = self.session_not_on_or_after\n        else:\n            nooa = self.not_on_or_after",
+  "        if self.session_not_on_or_after > 0:\n            nooa = self.not_on_or_after\n        else:\n            nooa = self.session_not_on_or_after",
+  rule="R6")
+V("c04-session-info-always-conditions", "C04", "response.py",
+  "        if self.session_not_on_or_after > 0:\n            nooa = self.session_not_on_or_after\n        else:\n            nooa = self.not_on_or_after",
+  "        nooa = self.not_on_or_after", rule="R6")
+V("c04-new-override", "C04", "response.py",
+  "        self.context = \"AttrQuery\"\n",
+  "        self.context = \"AttrQuery\"\n\n    def condition_ok(self, lax=False):\n        return True\n",
+  rule="R4")
+OK("c04-benign-compare-rewrite", "C04", "validate.py",
+   "if now > nooa + slack:", "if nooa + slack < now:")
+OK("c04-benign-compare-moved-term", "C04", "validate.py",
+   "if nbefore > now + slack:", "if nbefore - slack > now:")
+OK("c04-benign-window-unchained", "C04", "response.py",
+   "        return lower < issued_at < upper",
+   "        return lower < issued_at and issued_at < upper")
+
 VARIANTS[:] = [v for v in VARIANTS if v]
